@@ -262,3 +262,37 @@ func VH_C08_Lazy() {
 	symAssert(out == want, "logical-value")
 	symAssert(calls == wcalls, "operands-evaluated-only-when-needed")
 }
+
+// ---- C08.big: arithmetic results keep their value wherever they are turned into text -------------
+var vhC08Bases = []int{99999, 999999, 1000000, 9999999, 20000000, 2147483647, 4294967296, 1000000000000000, 9007199254740991}
+
+// VH_C08_Big: a = ±(base + d) with d in [-1, 1] around decimal and binary magnitude boundaries (10^5 ..
+// 10^7, 2^31, 2^32, 10^15, 2^53-1). The results of a*1, a+0, a-0, -(-a), a/1 are whole numbers that a
+// float64 holds exactly; printed, concatenated, joined, compared, searched and measured they are the
+// integer a.
+func VH_C08_Big() {
+	k := symChoice(len(vhC08Bases))
+	d := symInt()
+	symAssume(d >= -1 && d <= 1)
+	a := vhC08Bases[k] + d
+	if a > 9007199254740991 {
+		a = 9007199254740991
+	}
+	if symBool() {
+		a = -a
+	}
+	symTag("base:" + strconv.Itoa(vhC08Bases[k]))
+	s := strconv.Itoa(a)
+	out, err := vhR("{{ a * 1 }}|{{ (a * 1) ~ 'x' }}|{{ a + 0 }}|{{ a - 0 }}|{{ -(-a) }}|{{ a / 1 }}|{{ (a * 1) in [a] }}|{{ a in [a * 1] }}|"+
+		"{{ ((a * 1) ~ '') starts with s }}|{{ ((a + 0) ~ '') ends with s }}|{{ [a * 1, a + 0]|join(',') }}|{{ (a * 1) == a }}|{{ (a * 1) ~ '' == s }}|"+
+		"{% set q = a * 1 %}{{ q }}|{{ (a * 1)|default('d') }}|{{ max(a * 1, a - 1) }}|{{ (a * 1)|abs }}|{% for z in [a * 1] %}{{ z }}{% endfor %}|{{ (a * 1)|e }}",
+		map[string]interface{}{"a": a, "s": s})
+	symCover("rendered")
+	symAssert(err == nil, "renders")
+	abs := s
+	if a < 0 {
+		abs = s[1:]
+	}
+	want := s + "|" + s + "x|" + s + "|" + s + "|" + s + "|" + s + "|true|true|true|true|" + s + "," + s + "|true|true|" + s + "|" + s + "|" + s + "|" + abs + "|" + s + "|" + s
+	symAssert(out == want, "whole-results-are-integers-everywhere")
+}
